@@ -40,7 +40,7 @@ def render(doc):
 
 def build(scn, how=0):
     """how the batch request is filled: 0 all at once (constructor), 1 one by one (append), 2 the first one, then the rest (extend),
-    3 all at once into a batch request object that does not check ids (strict=False)"""
+    3 all at once into a batch request object that does not check ids (strict=False); 4 / 5: see run_one (grown after a first round trip)"""
     if scn['mode'] == 'single':
         return pjrpc.Request('m', [1], id=1)
     reqs = []
@@ -87,21 +87,40 @@ WARMUP = '[{"jsonrpc": "2.0", "id": 100, "result": "w0"}, {"jsonrpc": "2.0", "id
 
 
 def run_one(scn, kind, loop, how=0, warm=False):
-    """warm: the batch wrapper object (client.batch) has already made another round trip before this one"""
+    """warm: the batch wrapper object (client.batch) has already made another round trip before this one
+    how 4 / 5: the batch REQUEST object itself was sent before with its first element only, then it grew by the rest
+    (4: extend, 5: append one by one) and is sent again"""
     text = render(scn['doc'])
     ev = []
     replies = [text]
+    grown = how in (4, 5) and scn['mode'] == 'batch' and len(scn['calls']) > 1
     if kind == 'async':
         class C(AbstractAsyncClient):
             async def _request(self, request_text, is_notification=False, **kwargs):
+                if is_notification and grown:
+                    return None
                 return replies.pop(0) if len(replies) > 1 else replies[0]
     else:
         class C(AbstractClient):
             def _request(self, request_text, is_notification=False, **kwargs):
+                if is_notification and grown:
+                    return None
                 return replies.pop(0) if len(replies) > 1 else replies[0]
     client = C(strict=scn['strict'])
-    request = build(scn, how)
+    request = build(scn, 0 if how in (4, 5) else how)
     try:
+        if grown:
+            rest = list(request)[1:]
+            request = pjrpc.BatchRequest(*list(request)[:1])
+            if scn['calls'][0] != 'notif':
+                replies.insert(0, json.dumps([{'jsonrpc': '2.0', 'id': IDS[scn['calls'][0]], 'result': 'first'}]))
+            r0 = loop.run_until_complete(client.batch.send(request)) if kind == 'async' else client.batch.send(request)
+            assert (r0 is None) == (scn['calls'][0] == 'notif'), 'first round trip'
+            if how == 4:
+                request.extend(rest)
+            else:
+                for r in rest:
+                    request.append(r)
         if scn['mode'] == 'single':
             resp = loop.run_until_complete(client.send(request)) if kind == 'async' else client.send(request)
         else:
@@ -134,7 +153,7 @@ if __name__ == '__main__':
     import zlib
     for s in json.load(open(sys.argv[1])):
         h = zlib.crc32(json.dumps(s, sort_keys=True).encode())           # not the position: the enumeration order is periodic
-        how, warm = h % 4, (h // 4) % 2 == 1
+        how, warm = h % 6, (h // 6) % 2 == 1
         out.append(guarded(run_one)(s, 'sync', loop, how, warm))
         out.append(guarded(run_one)(s, 'async', loop, how, warm))
     json.dump(out, open(sys.argv[2], 'w'))
